@@ -388,8 +388,6 @@ pub fn run(ctx: &Ctx) -> &'static str {
         || apply_strategy(mo),
         |_| check_apply,
     );
-    if ctx.tier == crate::rt::Tier::Thorough {
-        crate::props::e2e::run(ctx, crate::props::e2e::Phase::Reload, 2);
-    }
+    crate::props::e2e::run(ctx, crate::props::e2e::Phase::Reload, ctx.tier.pick(1, 3));
     "exploration"
 }
